@@ -423,6 +423,10 @@ def run(prog, ctx):
                                             start=L.header)
             if not (okq and cutq):
                 badq = (st, "raised without a quote test")
+        elif cv == 0 and not any(L.cfg.block_of(st) in L.cfg.reachable(L.cfg.block_of(s1), avoid_blocks=[L.header])
+                                 and not (L.cfg.block_of(st) == L.cfg.block_of(s1) and L.cfg.index_of(st)[1] < L.cfg.index_of(s1)[1])
+                                 for l1, r1, s1 in qdefs if not isinstance(l1, dict) and r1.const_value() == 1):
+            pass        # the reset at the start of a line's work: no raise of the same line comes before it
         else:
             badq = (st, "`%s`: the flag is withdrawn for some quoted values, which are then written without quotes (a value containing the comment "
                         "character or outer blanks does not survive)" % render(st))
